@@ -215,6 +215,14 @@ def handle (op : String) (fs : List (String × String)) : String :=
       let c := if getField fs "api" == some "CFFPDF" || getField fs "api" == some "CFF" then "_" else "="
       "".intercalate (ks.map fun k => c ++ (if k < total then "!-" else ".T"))
     | none => "bad-case"
+  else if op == "faults.region" then
+    -- diagnostic (beyond the property's quantifier): an unreadable region that is touched makes
+    -- the read fail
+    "".intercalate (ks.map fun _ => ".")
+  else if op == "faults.decoder" then
+    -- the property at table level: for every k and every failure variant the decoder does not
+    -- return a value after one of its reads has failed (three variants per k)
+    "".intercalate (ks.map fun _ => "...")
   else if op == "faults.cffread" then
     match (getField fs "len").bind String.toNat? with
     | some len => "".intercalate (ks.map fun k => if k < len then "E" else "A")
